@@ -9,6 +9,7 @@ package datastore
 import (
 	"bytes"
 	"context"
+	"strings"
 	"time"
 
 	"github.com/sdcio/data-server/pkg/cache"
@@ -313,6 +314,17 @@ func VerifFaultRetry() {
 		return // the run made fewer calls than the fault index: covered by the fault-free harness
 	}
 	verifrt.Reach("fault-hit")
+	kind := "device"
+	switch who {
+	case 1:
+		kind = "cache"
+		if n := len(env.model.Log); n > 0 {
+			kind = "cache-" + strings.TrimPrefix(env.model.Log[n-1], "FAIL ")
+		}
+	case 2:
+		kind = "schema"
+	}
+	lbl := "C07-retry/after-" + kind + "-failure"
 	dev := pre.runningDevice()
 	if who == 0 {
 		verifrt.Assert(err != nil, "C07-device-failure-returns-error")
@@ -332,7 +344,7 @@ func VerifFaultRetry() {
 	}
 	rsp2, err2 := vStep(renv, sc, "t2", reqs, false)
 	verifrt.Reach("retried")
-	verifrt.Assert(err2 == nil, "C07-retry-accepted")
+	verifrt.Assert(err2 == nil, lbl+"-accepted")
 	if err2 != nil || vHasErrors(rsp2) {
 		return
 	}
@@ -340,6 +352,6 @@ func VerifFaultRetry() {
 		dev.applyPayload(sc, renv.tgt.Updates[i], renv.tgt.Deletes[i], "C07")
 	}
 	post := pre.apply(reqs)
-	post.assertIntended(renv, pre, reqs, "C07-retry-intended")
-	post.assertDevice(pre, reqs, dev, "C07-retry")
+	post.assertIntended(renv, pre, reqs, lbl+"-intended")
+	post.assertDevice(pre, reqs, dev, lbl)
 }
